@@ -232,6 +232,7 @@ def h_membership(eng, edit, pre="all"):
                 eng.prove(got == ({u} & closure(0)), f"{tag}:compatible-in-group:{u}")
                 got = {str(x) for x in ureg.get_compatible_units(u, "S")}
                 eng.prove(got == ({u} & want), f"{tag}:compatible-in-system:{u}")
+                eng.prove(set(ureg.Unit(u).systems) == ({"S"} if u in want else set()), f"{tag}:Unit.systems:{u}")
 
     if pre != "none":
         check("before", pre)  # also forces the memoised members
